@@ -70,14 +70,26 @@ class Library:
         #   such that a failing call leaves the library unchanged.
         remaining_blocks = list(self._blocks)
         for block in blocks:
-            remaining_blocks.remove(block)
+            del remaining_blocks[self._index_of(remaining_blocks, block)]
 
         for block in blocks:
-            self._blocks.remove(block)
+            del self._blocks[self._index_of(self._blocks, block)]
             if isinstance(block, Entry):
                 del self._entries_by_key[block.key]
             elif isinstance(block, String):
                 del self._strings_by_key[block.key]
+
+    @staticmethod
+    def _index_of(blocks: List[Block], block: Block) -> int:
+        """Position of `block` in `blocks`: of the object itself if it is in the list,
+        otherwise of the first block equal to it (blocks compare by content, and a library
+        may hold several equal ones, e.g. identical comments).
+
+        :raises ValueError: If there is no such block."""
+        for i, b in enumerate(blocks):
+            if b is block:
+                return i
+        return blocks.index(block)
 
     def replace(self, old_block: Block, new_block: Block, fail_on_duplicate_key: bool = True):
         """Replace a block with another block, at the same position.
@@ -89,7 +101,7 @@ class Library:
         :raises ValueError: If old_block is not in library or if fail_on_duplicate_key is True
                 and a block with new_block.key (other than old_block) already exists."""
         try:
-            index = self._blocks.index(old_block)
+            index = self._index_of(self._blocks, old_block)
             self.remove(old_block)
         except ValueError:
             raise ValueError("Block to replace is not in library.")
